@@ -16,7 +16,7 @@ LEVEL = "exploration"
 RULE = ("stateful (RuleBasedStateMachine): one object with scalar fields a,b (rand), c (non-rand), d (rand), a rand_attr "
         "sub-object s1.x, an attr (non-random) sub-object s2.y / s2.z (enum), a non-random enum field e, a non-random list nl used in 'in', a mutable vsc.rangelist "
         "member; generated class constraints over all of them.  Rules: assign any field; toggle rand_mode of a declared-"
-        "random scalar; replace the rangelist content; append/assign the list; obj.randomize(); obj.randomize_with(inline); "
+        "random scalar (and assign rand_mode on the declared non-random c / e, which must stay constants); replace the rangelist content; append/assign the list; obj.randomize(); obj.randomize_with(inline); "
         "vsc.randomize(obj); vsc.randomize_with(obj); free-standing vsc.randomize(f..)/vsc.randomize_with(f..) over a "
         "subset of the object's fields.  After every call (success or SolveFailure): every field that is not random for the "
         "call reads what the model holds; on success the state satisfies the reference evaluated with the CURRENT non-random "
@@ -43,6 +43,7 @@ FIELDS = [
 ]
 ENUMS = {"E1": {"int": True, "members": [["A", 0], ["B", 1], ["C", 5]]}}
 TOGGLE = ["a", "b", "d", "s1.x"]
+NONRAND_TOGGLE = ["c", "e"]      # rand_mode assigned on fields DECLARED non-random: must not make them random
 ASSIGNABLE = [f for f in FIELDS]
 
 CLASS_SRC = '''
@@ -221,7 +222,8 @@ class Session:
             return []
         if k == "mode":
             rawp(vsc, self.obj, op[1]).rand_mode = bool(op[2])
-            self.mode[op[1]] = bool(op[2])
+            if op[1] in TOGGLE:
+                self.mode[op[1]] = bool(op[2])
             self.info["pending_edit"] = True
             self.info["toggled"] = True
             return []
@@ -345,7 +347,7 @@ def op_assign(d):
 
 @hyp.composite
 def op_mode(d):
-    return ["mode", d.choice(TOGGLE), d.randint(0, 1)]
+    return ["mode", d.choice(TOGGLE + NONRAND_TOGGLE) if d.chance(35) else d.choice(TOGGLE), d.randint(0, 1)]
 
 
 @hyp.composite
